@@ -625,6 +625,10 @@ func (e *Exec) hashMethod(caller *frame, h *hashState, name string, args []Value
 		bs := e.byteTerms(args[0].(Slice))
 		h.data = append(h.data, bs...)
 		return tupleOf(e.intT(int64(len(bs))), Iface{})
+	case "WriteString":
+		bs := e.strBytes(args[0].(Str))
+		h.data = append(h.data, bs...)
+		return tupleOf(e.intT(int64(len(bs))), Iface{})
 	case "Reset":
 		h.data = nil
 		return nil
